@@ -24,7 +24,7 @@ RULE = ("products on the tracing filesystem (vfs://): per case one image (both s
         "(type, rpc class, selection class, number of groups touched) signatures")
 ASSUMPTIONS = ["file objects of the tracing filesystem have independent positions like real files",
                "metadata calls (info/exists) are not reads"]
-REQUIRED_OBS = ["loads_checked", "read_events", "open_logs_checked"]
+REQUIRED_OBS = ["loads_checked", "read_events", "open_logs_checked", "buffered_file_cases", "burst_header_cases"]
 CASE_TIMEOUT = 600
 
 NCASES = {"quick": 160, "thorough": 3000}
@@ -172,7 +172,21 @@ def run_case(i, tier, seed):
         rpc = rng.choice(harness.rpc_candidates(lines, rng))
         sels = [selections.random_selection(rng, lines, pixels) for _ in range(NSEL[tier])]
     tracefs.reset_log()
-    files, names, root, url = c02.build(seed, 10_000_000 + i, typ, lines, pixels, kind="vfs")
+    # optional header content must not change how requests are grouped: ScanSAR burst description / pixel range filled in half of the cases
+    fd = None
+    if i % 2 == 0 or i % 7 == 0:
+        burst = rng.randrange(2, 9)
+        fd = {"prefix_suffix_data_locators.number_of_burst_data": str(rng.randrange(1, 40)),
+              "prefix_suffix_data_locators.number_of_lines_per_burst": str(burst),
+              "scansar_burst_data_information.number_of_overlap_lines_with_adjacent_bursts": str(rng.randrange(0, burst)),
+              "prefix_suffix_data_locators.maximum_data_range_of_pixel": str(rng.randrange(1, 65536))}
+    files, names, root, url = c02.build(seed, 10_000_000 + i, typ, lines, pixels, kind="vfs", fd=fd)
+    # a third of the cases are served through fsspec buffered files with a block size (what http / s3 style filesystems hand out)
+    tracefs.BUFFERED[0] = rng.choice([64, 512, 4096, 65536]) if i % 3 == 2 else None
+    if tracefs.BUFFERED[0]:
+        obs["buffered_file_cases"] = 1
+    if fd:
+        obs["burst_header_cases"] = 1
     sample = None
     try:
         img = names["imgs"][0]
@@ -250,6 +264,7 @@ def run_case(i, tier, seed):
                                            "detail": {"type": typ, "shape": [lines, pixels], "rpc": rpc,
                                                       "reads": [e[2:] for e in log if e[0] == "read"][:12]}})
     finally:
+        tracefs.BUFFERED[0] = None
         synth.uninstall(files, root, "vfs")
     return {"sig": sigs, "evals": obs["loads_checked"], "violations": violations, "obs": obs, "sample": sample,
             "nontrivial": obs["loads_with_reads"] > 0}
